@@ -63,6 +63,11 @@ def make_set(rng, avoid):
         # names as projects have them: blanks, commas, non-ASCII letters, leading dashes
         for f_, nm in zip(files, core.file_names(rng, n)):
             f_[0] = nm
+    if rng.random() < 0.08:
+        # a valid file with one long flat expression (every command reads it on the same terms)
+        files.append(["long%d.st" % n, "PROGRAM LongSum%d\nVAR x : INT; END_VAR\nx := %s;\nEND_PROGRAM\n" % (
+            n, " + ".join(["x"] * rng.choice([600, 1500, 3000]))), []])
+        n += 1
     bad_index = None
     if fault != "none":
         bad_index = rng.randrange(n)
